@@ -384,7 +384,15 @@ pub fn run_c09(ctx: &Ctx) -> Report {
             cmds.push(Cmd::ping());
             scripts.push(Script::PrepOk { id, params: params2.clone(), cols: pcols2.clone() });
         }
-        let obs = run_case(&Case::new(cmds, scripts));
+        let mut case = Case::new(cmds, scripts);
+        // what the client announced in its handshake (layout, capabilities) must not matter
+        let (hs, hs_class) = random_handshake(rng);
+        case.handshake = hs;
+        rep.counters.class(format!("handshake {}", hs_class));
+        if hs_class.starts_with("3.20") {
+            rep.counters.inc("cases_after_a_320_handshake");
+        }
+        let obs = run_case(&case);
         rep.evaluations += 1;
         if harness_panic(&obs, rep) {
             return;
@@ -407,6 +415,7 @@ pub fn run_c09(ctx: &Ctx) -> Report {
         let d = || {
             J::obj()
                 .set("stmt_id", id)
+                .set("handshake", hs_class.clone())
                 .set("params", np)
                 .set("prepare_columns", nc)
                 .set("result_columns", nr)
